@@ -364,6 +364,7 @@ class HistogramDensityMethod(BatchDetector):
         self._bins = int(np.floor(np.sqrt(self.reference_n)))
         self.epsilon = []
         self.total_epsilon = 0
+        self._lambda = self.total_batches
 
         if self.detect_batch == 1:
             self.update(test_proxy)
